@@ -68,6 +68,8 @@ func encoderWrites(f *eng.Fn) []ast.Node {
 
 func runC10(p *eng.Prog, r *eng.Report, tier string) {
 	c := &cx{p, r, tier}
+	importRules(c, "C06", []string{"C06.6"}, "C10.24")
+	r19CancelledOnlyWhileWaiting(c, "C10.25")
 	r18ClosingTagWrittenOnce(c, "C10.23")
 	r17ReaderHandsOnTheDecodersError(c, "C10.22")
 	closedErrorNotClassified(c, "C10.18")
